@@ -270,7 +270,8 @@ class C02(Prop):
     model = "poolconc"
     rule = ("configurations: maxsize in {1,2} x (block=False | block=True without pool_timeout | block=True with "
             "pool_timeout) x 2-3 request threads each doing 1-2 requests (preloaded or streamed+released, scripts "
-            "ok / fail-then-ok / fail) x optional closer thread; per configuration all schedules with <= 1 (quick) "
+            "ok / fail-then-ok / fail; 3-thread configurations with at most 1 (quick) / 2 (thorough) retried "
+            "requests) x optional closer thread; per configuration all schedules with <= 1 (quick) "
             "/ <= 2 (thorough) pre-emptions over the statement-level yield points of the pool code plus seeded "
             "random deep schedules, run with real threads under harness/sched.py; each schedule's outcome vector "
             "(per-op result class, sockets open after the pool was dropped, max simultaneously open sockets) must "
@@ -332,8 +333,15 @@ class C02(Prop):
         rng.shuffle(pool22)
         for a, b in pool22[: (30 if deep else 5)]:
             confs.append(([a, b] + ([["c"]] if rng.random() < 0.5 else []), "2x2"))
-        # 3 threads x 1 request
-        pool3 = list(itertools.combinations_with_replacement(one, 3))
+        # 3 threads x 1 request.  The model side explores ALL schedules of the configuration; with three
+        # threads every retried request multiplies the state space (two retried requests + closer: ~7e6
+        # configurations, 60-80 s, 2 GB; three: > 10 min and > 15 GB), so the number of retried requests per
+        # 3-thread configuration is capped at 1 (quick) / 2 (thorough).  The theorems cover all programs.
+        def retried(prog):
+            return sum(1 for op in prog if op[0] in "rs" and parse_op(op)[1] > 0)
+        cap3 = 2 if deep else 1
+        pool3 = [c for c in itertools.combinations_with_replacement(one, 3)
+                 if sum(retried(p) for p in c) <= cap3]
         rng.shuffle(pool3)
         for a, b, c in pool3[: (24 if deep else 6)]:
             for closer in (False, True):
